@@ -39,7 +39,8 @@ ASSUMPTIONS = ['a refused rename leaves the renamed wire unregistered: outside t
 PROBES = ['refused_second_driver', 'refused_dup_child', 'refused_dup_wire_create', 'refused_dup_wire_rename',
           'refused_dup_wire_reparent', 'accepted_op', 'integrity_accept', 'integrity_missing_driver', 'integrity_dup_driver',
           'structural_second_driver', 'same_block_second_driver', 'integrity_recheck_after_edit', 'integrity_same_name_other_scope',
-          'refused_dup_wire_bundle', 'inout_second_driver', 'inout_on_plain_wire']
+          'refused_dup_wire_bundle', 'inout_second_driver', 'inout_on_plain_wire',
+          'refused_dup_wire_interface', 'interface_signal_removed', 'driver_disconnected', 'refused_disconnect']
 
 NAMES = ['a', 'b', 'c', 'x', 'y']
 WNAMES = NAMES + ['a_1', 'b_0', 'a_2']          # single wires that a later bundle a_0.. / b_0.. collides with
@@ -57,6 +58,20 @@ def gen(rs, tier, index):
         n = rng.randint(10, 60)
         for _ in range(n):
             r = rng.random()
+            if r < 0.03:
+                ops.append({'op': 'iface_new', 'parent': rng.randrange(8), 'name': rng.choice(['a', 'b'])})
+                continue
+            r2 = rng.random()
+            if r2 < 0.06:
+                ops.append({'op': 'iface_sig', 'iface': rng.randrange(8), 'name': rng.choice(['0', '1', '2', 'x']), 'w': rng.choice([1, 8]),
+                            'dir': rng.choice(['s2k', 'k2s'])})
+                continue
+            if r2 < 0.09:
+                ops.append({'op': 'iface_rm', 'iface': rng.randrange(8), 'name': rng.choice(['0', '1', '2', 'x']), 'dir': rng.choice(['s2k', 'k2s'])})
+                continue
+            if r2 < 0.13:
+                ops.append({'op': 'disconnect', 'wire': rng.randrange(64), 'blk': rng.randrange(64)})
+                continue
             if r < 0.06:
                 ops.append({'op': 'wires', 'parent': rng.randrange(8), 'name': rng.choice(['a', 'b']), 'num': rng.randint(1, 4), 'w': rng.choice([1, 4, 8])})
             elif r < 0.3:
@@ -93,6 +108,8 @@ def run_ops(scn, log, st):
     registered = {}                           # id(wire) -> still registered with its parent?
     driver = {}                               # id(wire) -> driving port
     refused = accepted = 0
+    ifaces = []                               # interfaces created through ops
+    blocks = []                               # blocks accepted through ops
 
     def expect_raise(fn, should, what, si):
         try:
@@ -108,10 +125,62 @@ def run_ops(scn, log, st):
 
     for si, op in enumerate(scn['ops'], 1):
         kind = op['op']
-        if kind in ('wire', 'wires', 'grp', 'blk'):
+        if kind in ('wire', 'wires', 'grp', 'blk', 'iface_new'):
             p = parents[op['parent'] % len(parents)]
             pc, pw = children.setdefault(id(p), {}), wires.setdefault(id(p), {})
-        if kind == 'wire':
+        if kind == 'iface_new':
+            # an Interface is a named bundle description; its signals become wires <iface>_<signal> of the parent
+            ifaces.append(py4hw.Interface(p, op['name']))
+        elif kind == 'iface_sig':
+            if not ifaces:
+                continue
+            itf = ifaces[op['iface'] % len(ifaces)]
+            p = itf.parent
+            pw = wires.setdefault(id(p), {})
+            nm = '%s_%s' % (itf.name, op['name'])
+            conflict = nm in pw
+            old = pw.get(nm)
+            add = itf.addSourceToSink if op['dir'] == 's2k' else itf.addSinkToSource
+            res, w = expect_raise(lambda: add(op['name'], op['w']), conflict, 'dup-wire-interface', si)
+            if conflict:
+                st.probe('refused_dup_wire_interface')
+                refused += 1
+                if p._wires.get(nm) is not old:
+                    raise Violation('earlier-lost', 'earlier-wire-replaced:interface', si, 'wire %s of %s was replaced' % (nm, p.getFullPath()))
+            else:
+                accepted += 1
+                pw[nm] = w
+                wlist.append(w)
+                registered[id(w)] = True
+        elif kind == 'iface_rm':
+            # trimming the description of an interface does not give the name of the wire back: the wire still exists
+            if not ifaces:
+                continue
+            itf = ifaces[op['iface'] % len(ifaces)]
+            try:
+                with quiet():
+                    (itf.removeSourceToSink if op['dir'] == 's2k' else itf.removeSinkToSource)(op['name'])
+                st.probe('interface_signal_removed')
+            except Exception:
+                pass
+        elif kind == 'disconnect':
+            if not wlist or not blocks:
+                continue
+            w = wlist[op['wire'] % len(wlist)]
+            o = blocks[op['blk'] % len(blocks)]
+            is_src = w.source is not None and any(w.source is q for q in o.outPorts)
+            is_snk = any(any(sk is q for q in o.inPorts) for sk in w.sinks)
+            res, _ = expect_raise(lambda: py4hw.base.disconnectWireFromLogicObject(w, o), not (is_src or is_snk), 'disconnect-unconnected', si)
+            if is_src:
+                driver[id(w)] = None          # the wire is free for a new driver
+                st.probe('driver_disconnected')
+                accepted += 1
+            elif is_snk:
+                accepted += 1
+            else:
+                st.probe('refused_disconnect')
+                refused += 1
+        elif kind == 'wire':
             nm = op['name']
             conflict = nm in pw
             old = pw.get(nm)
@@ -276,6 +345,7 @@ def run_ops(scn, log, st):
             else:
                 accepted += 1
                 pc[nm] = o
+                blocks.append(o)
                 if out.source is None:
                     raise Violation('driver-missing', 'driver-not-registered', si, 'block %s built but %s has no driver' % (nm, out.getFullPath()))
                 driver[id(out)] = out.source
